@@ -37,13 +37,15 @@ func sanitizeDestURL(dest string) string {
 }
 
 func resolveDest(dest string, pathName string, matches []string) string {
-	out := strings.ReplaceAll(dest, "$MTX_PATH", pathName)
-
+	// replace every placeholder in a single pass, so that text inserted
+	// by a substitution is never scanned for placeholders again
+	oldnew := make([]string, 0, 2*len(matches))
 	for i := len(matches) - 1; i >= 1; i-- {
-		out = strings.ReplaceAll(out, "$G"+strconv.FormatInt(int64(i), 10), matches[i])
+		oldnew = append(oldnew, "$G"+strconv.FormatInt(int64(i), 10), matches[i])
 	}
+	oldnew = append(oldnew, "$MTX_PATH", pathName)
 
-	return out
+	return strings.NewReplacer(oldnew...).Replace(dest)
 }
 
 // DestHandler manages a forward destination.
